@@ -13,7 +13,9 @@ from . import common, tlaval
 from .common import SPEC, MachineryError
 
 UNIT = 20.0
-REPLAY_CFGS = ["two_long", "press", "chain_long", "diamond_long"]
+REPLAY_CFGS = ["two_long", "press", "chain_long", "diamond_long", "goon", "goon_oc", "extkill", "extkill1"]
+# in the quick tier: two base configurations plus the optional behaviours (going on after a refusal, kills from outside) the property is about
+QUICK_EXTRA = {"C02": ["extkill1"], "C03": ["goon"], "C04": ["goon_oc"], "C09": ["goon", "extkill1"], "C10": ["goon"], "C11": ["goon_oc"]}
 _consts = {}
 
 
@@ -107,6 +109,9 @@ def expected(state):
     return [list(x) for x in s["ost"]], pools
 
 
+COUNTS = {"went_on": [0], "kills": [0]}
+
+
 def replay_behaviour(steps, const):
     """Returns a list of mismatches (clause, detail)."""
     from eudoxia.executor.assignment import Assignment, Suspend
@@ -115,6 +120,7 @@ def replay_behaviour(steps, const):
     bad = []
     pending_asg = []
     nsteps = 0
+    n_goon, n_kill = COUNTS["went_on"], COUNTS["kills"]
     for k in range(1, len(steps)):
         action, st = steps[k]
         crash = st["s"]["crash"]
@@ -140,6 +146,18 @@ def replay_behaviour(steps, const):
             got = [[o.state().value for o in ops] for _, ops in pipes]
             if got != [list(x) for x in st["s"]["ost"]]:
                 bad.append(("replay.C02.ost.round", {"step": k, "spec": st["s"]["ost"], "code": got}))
+        elif action == "ExtKill":
+            prev = steps[k - 1][1]
+            killed = [c + 1 for c in range(len(st["s"]["ctr"])) if st["s"]["ctr"][c]["done"] and not prev["s"]["ctr"][c]["done"]]
+            objs = [c for R in ex.pools for c in R.active_containers if cid_of.get(c.container_id) in killed]
+            if len(killed) != 1 or len(objs) != 1:
+                raise MachineryError(f"ExtKill step {k}: cannot identify the container ({killed}, {len(objs)} objects)")
+            objs[0].kill(st["s"]["ctr"][killed[0] - 1]["err"])
+            n_kill[0] += 1
+            got = [[o.state().value for o in ops] for _, ops in pipes]
+            if got != [list(x) for x in st["s"]["ost"]]:
+                bad.append(("replay.C02.ost.kill", {"step": k, "spec": st["s"]["ost"], "code": got}))
+                return bad, nsteps, "mismatch"
         elif action == "Exec":
             prev = steps[k - 1][1]
             sus = [Suspend(real_of.get(x["cid"], f"unknown{x['cid']}"), x["pool"] - 1) for x in prev["sus"]]
@@ -148,7 +166,11 @@ def replay_behaviour(steps, const):
                 raised = None
             except BaseException as e:  # noqa: BLE001
                 raised, res = e, []
-            if (raised is not None) != (crash != ""):
+            # a configuration with goOn: the caller catches a refusal and goes on; the model's state is then what the refused call left behind
+            went_on = raised is not None and crash == "" and bool(const["cfg"].get("goOn"))
+            if went_on:
+                n_goon[0] += 1
+            if (raised is not None) != (crash != "") and not went_on:
                 bad.append(("replay.reject." + (crash or "none"), {"step": k, "spec_crash": crash, "code_raised": repr(raised)[:100], "sus": prev["sus"], "asg": prev["asg"]}))
                 return bad, nsteps, "mismatch"
             if crash != "":
@@ -188,7 +210,7 @@ def run(rep, prop, tier):
     num = 120 if tier == "quick" else 3000
     total = steps = 0
     outcomes = {}
-    for i, cfg in enumerate(REPLAY_CFGS if tier == "thorough" else REPLAY_CFGS[:2] if prop not in ("C11", "C04") else ["press", "two_long"]):
+    for i, cfg in enumerate(REPLAY_CFGS if tier == "thorough" else (REPLAY_CFGS[:2] if prop not in ("C11", "C04") else ["press", "two_long"]) + QUICK_EXTRA.get(prop, [])):
         behaviours, r = simulate(cfg, num, 16, common.seed() + i)
         b2, r2 = simulate(cfg, num, 18, common.seed() + 100 + i, admissible=True)
         rep.transitions += r.generated + r2.generated
@@ -206,4 +228,6 @@ def run(rep, prop, tier):
     rep.extra["tlc_behaviours_replayed"] = total
     rep.extra["tlc_transitions_replayed"] = steps
     rep.extra["replay_outcomes"] = outcomes
+    rep.extra["replay_refusals_gone_on_after"] = COUNTS["went_on"][0]
+    rep.extra["replay_kills_from_outside"] = COUNTS["kills"][0]
     return total
